@@ -19,6 +19,10 @@ class TimeSeriesDifference(BaseReciprocalTimeSeriesTransformer):
         """
         return self.context_length
 
+    @degree.setter
+    def degree(self, value):
+        self.context_length = value
+
     def fit(self, X, y, sample_weight=None):
         """
         Stores the first values.
